@@ -276,7 +276,7 @@ def main():
                 if b is not None and b.get("other", 0) == 0 and b.get("proved", 0) > 0 and b.get("max_s", 1e9) <= BASELINE_MARGIN_S:
                     suspects.setdefault((r.get("module"), r["function"]), set()).add(o["name"])
     confirmations = {}
-    if suspects and timeout_ms < CONFIRM_BUDGET_MS:
+    if suspects:
         for (modname, fname), names in suspects.items():
             # fresh processes (z3's instantiation order depends on the state of the process it runs in) and up to three
             # solver seeds; an obligation counts as proved if any attempt proves every instance of it
